@@ -24,3 +24,25 @@ theorem forall_lt_of_allRange (p : Nat → Bool) (d : Nat) (h : allRange p d 0 =
   fun i hi => allRange_sound p d 0 h i (Nat.zero_le _) (by omega)
 
 end GbVerif.Enum
+
+namespace GbVerif.Enum
+
+/-- Prop-valued binary splitting: `PTree P d lo` is the conjunction of `P i` for `i ∈ [lo, lo + 2^d)`.
+Useful when `P i` quantifies over further (symbolic) variables and each instance closes by `rfl`/`simp`. -/
+def PTree (P : Nat → Prop) : Nat → Nat → Prop
+  | 0, lo => P lo
+  | d+1, lo => PTree P d lo ∧ PTree P d (lo + 2^d)
+
+theorem ptree_sound (P : Nat → Prop) : ∀ d lo, PTree P d lo → ∀ i, lo ≤ i → i < lo + 2^d → P i
+  | 0, lo, h, i, h1, h2 => by
+    have : i = lo := by simp at h2; omega
+    subst this; exact h
+  | d+1, lo, h, i, h1, h2 => by
+    by_cases hi : i < lo + 2^d
+    · exact ptree_sound P d lo h.1 i h1 hi
+    · exact ptree_sound P d (lo + 2^d) h.2 i (by omega) (by rw [Nat.pow_succ] at h2; omega)
+
+theorem forall_lt_of_ptree (P : Nat → Prop) (d : Nat) (h : PTree P d 0) : ∀ i, i < 2^d → P i :=
+  fun i hi => ptree_sound P d 0 h i (Nat.zero_le _) (by omega)
+
+end GbVerif.Enum
